@@ -62,9 +62,12 @@ class Model:
         return "ok"
 
     def set_default(self, id, cat, unit):
+        unchanged = self.systems[id].get(cat) == unit
         self.systems[id][cat] = unit
         if self.current == id:
-            self.log.append(("unit", cat, unit))
+            # "notified exactly for default-unit changes": setting the unit a category already has changes nothing -
+            # an announcement of it is tolerated, not demanded
+            self.log.append(("unit?" if unchanged else "unit", cat, unit))
         return "ok"
 
     def remove_category(self, id, cat):
@@ -78,8 +81,8 @@ class Model:
         """observed callback log vs the model's, where ("cur?", id) entries are optional."""
         i = 0
         for kind, *rest in self.log:
-            if kind == "cur?":
-                if i < len(observed) and tuple(observed[i]) == ("cur",) + tuple(rest):
+            if kind in ("cur?", "unit?"):
+                if i < len(observed) and tuple(observed[i]) == (kind[:-1],) + tuple(rest):
                     i += 1
                 continue
             if i >= len(observed) or tuple(observed[i]) != (kind,) + tuple(rest):
